@@ -616,8 +616,8 @@ func (x *Exec) execInstrs(st *State, fr *Frame, b *ssa.BasicBlock, start int, k 
 			k(st, res)
 			return
 		case *ssa.Panic:
-			if x.nopanic && x.panicKindSelected("panic") {
-				x.emit(st, "nopanic", x.oblName("nopanic@panic"), x.posStr(v.Pos()), TFalse)
+			if what := panicLabel(v); x.nopanic && x.panicKindSelected(what) {
+				x.emit(st, "nopanic", x.oblName("nopanic@"+what), x.posStr(v.Pos()), TFalse)
 			}
 			return
 		case *ssa.Call:
@@ -1190,4 +1190,79 @@ func constIntGlobal(g *ssa.Global) (int64, bool) {
 		constIntGlobals.Store(g, nil)
 	}
 	return res, ok
+}
+
+// panicLabel names an explicit panic by what it reports, so that obligations (and known findings) tell the sites
+// of one function apart without line numbers: "panic:<first words of a constant message>", or
+// "panic:err-of-<callee>" when the argument is (a wrapping of) the error result of a call, else "panic".
+func panicLabel(p *ssa.Panic) string {
+	v := p.X
+	for depth := 0; depth < 8; depth++ {
+		switch t := v.(type) {
+		case *ssa.MakeInterface:
+			v = t.X
+			continue
+		case *ssa.ChangeInterface:
+			v = t.X
+			continue
+		case *ssa.Const:
+			if t.Value != nil && t.Value.Kind() == constant.String {
+				words := strings.FieldsFunc(constant.StringVal(t.Value), func(r rune) bool {
+					return !(r >= 'a' && r <= 'z' || r >= 'A' && r <= 'Z' || r >= '0' && r <= '9')
+				})
+				if len(words) > 4 {
+					words = words[:4]
+				}
+				if len(words) > 0 {
+					return "panic:" + strings.ToLower(strings.Join(words, "-"))
+				}
+			}
+			return "panic"
+		case *ssa.Extract:
+			v = t.Tuple
+			continue
+		case *ssa.Phi:
+			// an error variable assigned on several paths: follow the first non-nil edge
+			var next ssa.Value
+			for _, e := range t.Edges {
+				if c, isC := e.(*ssa.Const); isC && c.Value == nil {
+					continue
+				}
+				next = e
+				break
+			}
+			if next == nil {
+				return "panic"
+			}
+			v = next
+			continue
+		case *ssa.Call:
+			name := ""
+			if t.Call.IsInvoke() {
+				name = t.Call.Method.Name()
+			} else if f := t.Call.StaticCallee(); f != nil {
+				name = f.Name()
+			}
+			if (name == "Wrap" || name == "Wrapf" || name == "Errorf") && len(t.Call.Args) > 0 {
+				// error wrappers: the wrapped error is what matters
+				var inner ssa.Value
+				for _, a := range t.Call.Args {
+					if isErrorType(a.Type()) {
+						inner = a
+						break
+					}
+				}
+				if inner != nil {
+					v = inner
+					continue
+				}
+			}
+			if name != "" {
+				return "panic:err-of-" + name
+			}
+			return "panic"
+		}
+		break
+	}
+	return "panic"
 }
